@@ -68,6 +68,37 @@ def outputs_file(job):
     return out
 
 
+def outputs_external(job):
+    """adapter path: a 3D file plus an FR3D listing (may contain competing pairs for one nucleotide)"""
+    from rnapolis.adapter import ExternalTool, process_external_tool_output
+    from rnapolis.annotator import write_csv, write_json
+    from rnapolis.parser import read_3d_structure
+    out = {}
+    with open(job["path"]) as f:
+        s3d = read_3d_structure(f, None)
+    d = tempfile.mkdtemp(prefix="c14x-")
+    try:
+        lp = os.path.join(d, "listing.txt")
+        with open(lp, "w") as f:
+            f.write(job["listing"])
+        s2d, dbs, mapping = process_external_tool_output(s3d, lp, ExternalTool("fr3d"), None, job.get("find_gaps", False), True)
+        out["bpseq"] = dig(s2d.bpseq)
+        out["dotBracket"] = dig(s2d.dotBracket)
+        out["extendedDotBracket"] = dig(s2d.extendedDotBracket)
+        out["allDotBrackets(in order)"] = dig("\n".join(dbs))
+        out["basePairs"] = dig(repr(s2d.baseInteractions.basePairs))
+        pj, pc = os.path.join(d, "o.json"), os.path.join(d, "o.csv")
+        write_json(pj, s2d)
+        write_csv(pc, s2d)
+        out["json"] = dig(open(pj, "rb").read())
+        out["csv"] = dig(open(pc, "rb").read())
+    finally:
+        for f in os.listdir(d):
+            os.remove(os.path.join(d, f))
+        os.rmdir(d)
+    return out
+
+
 def outputs_bpseq(job):
     from rnapolis.common import BpSeq, Entry
     b = BpSeq([Entry(i + 1, c, p) for i, (c, p) in enumerate(zip(job["seq"], job["pairs"]))])
@@ -87,7 +118,7 @@ def main():
     jobs = json.load(sys.stdin)
     res = []
     for job in jobs:
-        f = outputs_file if job["kind"] == "file" else outputs_bpseq
+        f = {"file": outputs_file, "external": outputs_external}.get(job["kind"], outputs_bpseq)
         try:
             a = f(job)
         except Exception as e:  # noqa: BLE001
